@@ -497,6 +497,14 @@ Fixpoint pure_expr (fuel : nat) (e : expr) {struct fuel} : bool :=
         fix ps (b : list stmt) : bool :=
           match b with
           | [SReturn (Some r)] => pure_expr f r
+          | [SSwitch sel cases] =>
+            (* switch (sel) { case k: { return e; } ... default: { return e; } }   (__get_col_of_matCx2) *)
+            pure_expr f sel &&
+            forallb (fun c => match c with
+                              | (lab, [SBlock [SReturn (Some r)]]) =>
+                                pure_expr f r && match lab with Some le => pure_expr f le | None => true end
+                              | _ => false
+                              end) cases
           | SDecl _ _ (Some i) :: b' => pure_expr f i && ps b'
           | SDecl _ _ None :: b' => ps b'
           | SAssign None l r :: b' => pure_expr f l && pure_expr f r && ps b'
@@ -636,6 +644,33 @@ Fixpoint peval (fuel : nat) (st : state) (e : expr) {struct fuel} : cres :=
                   fix go (b : list stmt) (st' : state) : cres :=
                     match b with
                     | [SReturn (Some r)] => v <~~ peval fu st' r ;; convert_to 16 (fn_ret fn) v
+                    | [SSwitch sel cases] =>
+                      match peval fu st' sel with
+                      | Done (sv, u2) =>
+                        let pick :=
+                            fix pick (cs : list (option expr * list stmt)) (dflt : option expr) : result (option expr) :=
+                              match cs with
+                              | [] => Done dflt
+                              | (None, [SBlock [SReturn (Some r)]]) :: cs' =>
+                                pick cs' (match dflt with None => Some r | Some _ => dflt end)
+                              | (Some le, [SBlock [SReturn (Some r)]]) :: cs' =>
+                                match peval fu st' le with
+                                | Done (lv, _) => if case_matches lv sv then Done (Some r) else pick cs' dflt
+                                | OutOfFuel => OutOfFuel | Fail m => Fail m
+                                end
+                              | _ => Fail "unsupported: switch form in a helper"
+                              end in
+                        match pick cases None with
+                        | Done (Some r) =>
+                          match (v <~~ peval fu st' r ;; convert_to 16 (fn_ret fn) v) with
+                          | Done (w, u3) => Done (w, (u2 ++ u3)%list)
+                          | OutOfFuel => OutOfFuel | Fail m => Fail m
+                          end
+                        | Done None => Fail "UB: a helper's switch returns no value"
+                        | OutOfFuel => OutOfFuel | Fail m => Fail m
+                        end
+                      | OutOfFuel => OutOfFuel | Fail m => Fail m
+                      end
                     | SDecl t x (Some i) :: b' =>
                       match (v <~~ peval fu st' i ;; convert_to 16 t v) with
                       | Done (cv, u2) =>
